@@ -35,6 +35,8 @@ pub mod parse;
 #[cfg(not(fuzzing))]
 mod parse;
 mod router;
+#[cfg(feature = "verif-hooks")]
+pub mod verif;
 
 use bytes::BytesMut;
 use tokio_util::codec::Decoder;
